@@ -140,6 +140,28 @@ def run(ctx):
             d = bytearray(f)
             d[pos] ^= 1 << rng.randrange(8)
             add("L%d.flip%d" % (li, j), bytes(d), x, "flip", name, ["oneshot"])
+    # skippable frames (alone, before and after a zstd frame): a stream cut inside a skippable frame's header or content is as
+    # incomplete as one cut inside a block; cuts that fall exactly between two frames leave a complete stream and are skipped
+    small = [(name, f, x) for name, f, x in cat if len(f) <= 320][:2]
+    sk = lambda payload, v=0: (0x184D2A50 + v).to_bytes(4, "little") + len(payload).to_bytes(4, "little") + payload
+    comps = []
+    for j, n in enumerate((0, 1, 7, 40, 300)):
+        comps.append(("skip%d" % n, [sk(rng.randbytes(n), j % 16)], b""))
+    for name, f, x in small:
+        comps.append(("frame+skip " + name, [f, sk(rng.randbytes(33), 3)], x))
+        comps.append(("skip+frame " + name, [sk(rng.randbytes(20), 15), f], x))
+        comps.append(("frame+skip0+frame " + name, [f, sk(b""), f], x + x))
+    for ci, (name, parts, x) in enumerate(comps):
+        data = b"".join(parts)
+        bounds, acc = set(), 0
+        for part in parts:
+            acc += len(part)
+            bounds.add(acc)
+        add("K%d.full" % ci, data, x, "complete", name, ["oneshot", "stream:1:0", "stream:7:3", "continue"])
+        for k in range(1, len(data)):
+            if k in bounds:
+                continue
+            add("K%d.cut%d" % (ci, k), data[:k], None, "prefix", name, PATHS)
     out, errs = cd.impl(lines)
     if errs:
         ctx.violation(dict(kind="harness-crash", detail=errs[:2]), what="zv_codec crashed on a damaged frame: %r" % (errs[0],))
@@ -186,8 +208,18 @@ def run(ctx):
         n = rng.choice([0, 1, 100, 5000, 140000])
         x = codec.gen_input(rng, rng.choice(["text", "random", "zeros"]), n)
         lie = rng.choice([n + 1, max(0, n - 1), n + 1000, 0 if n else 5, n])
-        pl.append(("p%d" % i, x, lie))
-    pout, perrs = cd.impl(["S %s %s - - %s %s %d" % (i, codec.params_str({"level": 1}), "%d:%d:0" % (len(x) // 2, 1 << 20), codec.hx(x), lie) for i, x, lie in pl])
+        # the pledge is in force whatever the frame header records (ZSTD_c_contentSizeFlag=0) and whatever else is set
+        pp = {"level": rng.choice([1, 3])}
+        r = rng.random()
+        if r < 0.35:
+            pp["contentSize"] = 0
+        if rng.random() < 0.2:
+            pp["checksum"] = 1
+        if rng.random() < 0.15:
+            pp["windowLog"] = rng.choice([10, 17])
+        pl.append(("p%d" % i, x, lie, pp))
+    pout, perrs = cd.impl(["S %s %s - - %s %s %d" % (i, codec.params_str(pp), "%d:%d:0" % (len(x) // 2, 1 << 20), codec.hx(x), lie) for i, x, lie, pp in pl])
+    pl = [(i, x, lie) for i, x, lie, pp in pl]
     for i, x, lie in pl:
         rest = pout.get(i, "ERR missing")
         r = rest.split(" ")
